@@ -70,6 +70,8 @@ def classify(ev):
             return "C06/transits-keep-lag-symbol-without-definition"
         if "cleanup_model returned" in msg and "symbols that nothing defines" in msg:
             return "C06/cleanup-model-drops-used-definition"
+        if ("add_pk_iiv returned" in msg or "add_iiv returned" in msg) and "duplicate random variable names" in msg:
+            return "C06/add-iiv-custom-eta-name-collision"
     return None
 
 
